@@ -276,7 +276,7 @@ def run_case(ctx, kx, ky, k, nplans, obs, codec=None):
 
 # ---- abstract key cells: TLC enumerates tables over key classes and realisation slots, a witness scheme makes them concrete ----
 def schemes():
-    return [sc for sc in x_join.SCHEMES if not sc.held_back or os.environ.get('VERIF_C02_HELD_BACK') == '1']
+    return [sc for sc in x_join.SCHEMES if not sc.held_back or os.environ.get('VERIF_C02_HELD_BACK', '1') == '1']      # the held-back schemes are a recorded known finding (C02-K1): run by default, VERIF_C02_HELD_BACK=0 leaves them out
 
 
 def rand_key_tables(rng):
@@ -533,7 +533,7 @@ def run(ctx):
     held = [sc.name for sc in x_join.SCHEMES if sc.held_back]
     ctx.assumptions += ['abstract key cells: the witnesses of one class are one exact value (fractions.Fraction / datetime / str, asserted when the scheme is built), '
                         'classes are numbered in the natural order; a returned cell is encoded by the class of its exact value, whatever its type',
-                        'witness schemes held back because today\'s code contradicts the statement on them (reported; VERIF_C02_HELD_BACK=1 runs them): %s - '
+                        'witness schemes on which today\'s code contradicts the statement (run by default and recorded as known finding C02-K1; VERIF_C02_HELD_BACK=0 leaves them out): %s - '
                         'numpy scalars whose own == is lossy (int64 / uint64 / float32 against a float or another width beyond the exact range), '
                         'pandas.Timestamp against datetime, str subclasses / numpy.str_ against str, numpy.longdouble; bool keys are outside the quantifier' % ', '.join(held),
                         'sessions: the DataFrame operand holds int columns only (a DataFrame coerces None / mixed columns itself); a pool object is read through its own '
